@@ -81,7 +81,10 @@ RelativeArithmetic ==
 
 \* ---- the as-is collector fails exactly here (mirrors findings/X03.jsonl)
 KnownRegion(f) ==
-  \/ f.locus.delta \in {"root_prepended", "head_prepended"}
+  \/ f.locus.delta = "root_prepended"
+  \* (6686a9c repaired the completion of complete paths; only the output package itself is still completed again)
+  \/ (f.locus.delta = "head_prepended" /\ f.clause = "resolves" /\ f.locus.target = "root")
+  \/ (f.locus.delta = "head_prepended" /\ f.clause = "no_spurious" /\ f.locus.cur = "package" /\ f.locus.name = "Root")
   \/ f.clause = "no_loss" /\ f.locus.form = "plain" /\ f.locus.target \in {"internal", "root"}
   \/ f.clause = "grouped" /\ f.locus.got = "future_not_first"
   \/ f.clause = "typing_complete" /\ f.locus.name \in {"IO", "datetime"}
